@@ -9,6 +9,7 @@ import (
 	"sync"
 
 	"github.com/ipld/go-storethehash/store/types"
+	"github.com/ipld/go-storethehash/store/vhook"
 )
 
 const CIDSizePrefix = 4
@@ -83,6 +84,7 @@ func (cp *FreeList) Flush() (types.Work, error) {
 	cp.outstandingWork = 0
 	cp.poolLk.Unlock()
 
+	vhook.Point("fl.flush.swapped")
 	// The pool lock is released allowing Put to write to nextPool. The
 	// flushLock is still held, preventing concurrent flushes from changing the
 	// pool or accessing writer.
@@ -99,6 +101,7 @@ func (cp *FreeList) Flush() (types.Work, error) {
 		}
 		work += blockWork
 	}
+	vhook.Point("fl.flush.write")
 	err := cp.writer.Flush()
 	if err != nil {
 		return 0, fmt.Errorf("cannot flush data to freelist file %s: %w", cp.file.Name(), err)
@@ -188,6 +191,7 @@ func (cp *FreeList) ToGC() (string, error) {
 		return workFilePath, nil
 	}
 
+	vhook.Point("fl.togc.flush")
 	_, err = cp.Flush()
 	if err != nil {
 		return "", err
@@ -200,11 +204,13 @@ func (cp *FreeList) ToGC() (string, error) {
 	// acquired.
 	cp.writer.Flush()
 	cp.file.Close()
+	vhook.Point("fl.togc.rename")
 	err = os.Rename(fileName, workFilePath)
 	if err != nil {
 		return "", err
 	}
 
+	vhook.Point("fl.togc.renamed")
 	cp.file, err = os.OpenFile(fileName, os.O_RDWR|os.O_APPEND|os.O_CREATE, 0o644)
 	if err != nil {
 		return "", err
